@@ -63,6 +63,7 @@ let rec val_of_sx (x : sx) : val0 =
   | L [A "me"; e] -> VMatE (atom_nat e)
   | L [A "mc"] -> VMatC
   | L [A "obs"; h] -> VObs (atom_nat h)
+  | L [A "obs"] -> VObs O
   | _ -> failwith ("bad value " ^ sx_to_string x)
 
 let rec sx_of_val (v : val0) : sx =
@@ -246,6 +247,50 @@ let model_detail (stk : req list) (w : world) : string =
   | SelfDeadlock _ -> "self-deadlock"
   | Running -> if stk = [] then "ok" else "spin"
 
+(* ---------------------------------------------------------------- oracles on observation lines *)
+let uid_of_str (s : string) : nat =
+  let k = nat_of_int (int_of_string (String.sub s 1 (String.length s - 1))) in
+  if s.[0] = 't' then uenc (UTop k) else uenc (UChild k)
+
+let observation_of_sx (x : sx) : observation =
+  match x with
+  | L (A "obs" :: fs) ->
+      let outc = (match field "out" fs with [A "ok"] -> O | [A "hang"] -> S O | _ -> S (S O)) in
+      let bool_of = function A "1" -> true | _ -> false in
+      { ob_out = outc;
+        ob_log = List.map (function L [A u; c; e] -> ((uid_of_str u, atom_nat c), ev_of_sx e) | y -> failwith ("bad log entry " ^ sx_to_string y)) (field "log" fs);
+        ob_tap = List.map (function L [t; e] -> (atom_nat t, ev_of_sx e) | y -> failwith ("bad tap " ^ sx_to_string y)) (field "tap" fs);
+        ob_probes = List.map (function L [s; a; p; al] -> (((atom_nat s, atom_nat a), atom_nat p), bool_of al) | y -> failwith ("bad probe " ^ sx_to_string y)) (field "probes" fs);
+        ob_snaps = List.map (function L [c; L bs; L ns] -> ((atom_nat c, List.map bool_of bs), List.map atom_nat ns) | y -> failwith ("bad snap " ^ sx_to_string y)) (field "snaps" fs) }
+  | _ -> failwith "bad observation"
+
+let read_lines path =
+  let ic = open_in path in
+  let acc = ref [] in
+  (try while true do let l = input_line ic in if String.length l > 0 then acc := l :: !acc done with End_of_file -> ());
+  close_in ic; List.rev !acc
+
+(* verdict of one oracle: None = not applicable, Some true = holds *)
+let apply_oracle (name : string) (sc : scenario) (o : observation) : bool option =
+  match name with
+  | "c01" -> Some (c01_oracle o)
+  | _ -> failwith ("unknown oracle " ^ name)
+
+let oracle name scen_file obs_file =
+  let ss = read_lines scen_file and os = read_lines obs_file in
+  List.iter2 (fun s o ->
+      let v =
+        try
+          let x = (match parse_sx o with [x] -> x | _ -> failwith "obs: not one sexp") in
+          (match x with
+           | L (A "obs" :: _) ->
+               let sc = scenario_of_sx (match parse_sx s with [y] -> y | _ -> failwith "scn: not one sexp") in
+               (match apply_oracle name sc (observation_of_sx x) with
+                | None -> "skip" | Some true -> "ok" | Some false -> "fail")
+           | _ -> "fail unreadable-observation")
+        with e -> "fail exception " ^ Printexc.to_string e in
+      print_endline v) ss os
+
 let run_seq fuel =
   let fuel = nat_of_int fuel in
   (try
@@ -270,4 +315,5 @@ let run_seq fuel =
 let () =
   match Array.to_list Sys.argv with
   | _ :: "run-seq" :: fuel :: _ -> run_seq (int_of_string fuel)
+  | _ :: "oracle" :: name :: sf :: obf :: _ -> oracle name sf obf
   | _ -> prerr_endline "usage: driver run-seq FUEL < scenarios"; exit 2
